@@ -1,6 +1,6 @@
 """C09 — configuration of the check (deductive tier under construction)."""
 PROPERTY = "C09"
-LEVEL = "other"
+LEVEL = "exploration"
 CONTRACT_MODULES = ["contracts.specfuns"]
 FUNCTIONS = []
 LEMMAS = []
